@@ -137,6 +137,96 @@ pub fn macro_keywords() -> Vec<(String, T)> {
     v
 }
 
+/// "Fold-alike" spellings: every keyword (open-code keywords, macro keywords, expression
+/// mnemonics, in-stream data keywords, literal suffixes) with one occurrence of a letter (or
+/// letter pair) replaced by a non-ASCII character whose *Unicode* upper- or lower-case mapping
+/// is that ASCII letter (dotless i, long s, Kelvin sign, sharp s, the Latin ligatures) or by its
+/// full-width form. A keyword look-up that folds case with the Unicode tables instead of the
+/// ASCII ones would take these for the keyword. Returns (host with `{}`, word) pairs.
+pub fn fold_alike_words() -> Vec<(String, String)> {
+    const SUBST: &[(&str, &[&str])] = &[
+        ("I", &["\u{131}", "\u{130}", "\u{ff29}", "\u{ff49}"]),
+        ("S", &["\u{17f}", "\u{ff33}"]),
+        ("K", &["\u{212a}", "\u{ff2b}"]),
+        ("SS", &["\u{df}", "\u{1e9e}"]),
+        ("FI", &["\u{fb01}"]),
+        ("FL", &["\u{fb02}"]),
+        ("FF", &["\u{fb00}"]),
+        ("ST", &["\u{fb06}", "\u{fb05}"]),
+        ("N", &["\u{ff2e}", "\u{149}"]),
+        ("A", &["\u{ff21}", "\u{1e9a}"]),
+        ("E", &["\u{ff25}"]),
+        ("T", &["\u{ff34}", "\u{1e97}"]),
+        ("X", &["\u{ff38}"]),
+        ("D", &["\u{ff24}"]),
+        ("B", &["\u{ff22}"]),
+        ("O", &["\u{ff2f}"]),
+        ("L", &["\u{ff2c}"]),
+        ("J", &["\u{1f0}"]),
+        ("H", &["\u{1e96}"]),
+        ("W", &["\u{1e98}"]),
+        ("Y", &["\u{1e99}"]),
+    ];
+    let variants = |w: &str| -> Vec<String> {
+        let up = w.to_ascii_uppercase();
+        let mut out = Vec::new();
+        for (pat, reps) in SUBST {
+            let mut from = 0;
+            while let Some(k) = up[from..].find(pat) {
+                let at = from + k;
+                for r in *reps {
+                    // keep the case of the rest of the word as given (lower case)
+                    out.push(format!("{}{}{}", &w[..at], r, &w[at + pat.len()..]));
+                }
+                from = at + 1;
+            }
+        }
+        out
+    };
+    let mut v: Vec<(String, String)> = Vec::new();
+    let mut add = |host: &str, w: &str| {
+        for x in variants(w) {
+            v.push((host.to_string(), x));
+        }
+    };
+    for (kw, _) in keywords() {
+        let w = kw.to_ascii_lowercase();
+        add("{}", &w);
+        add("a {} b;", &w);
+    }
+    for w in ["datalines", "cards", "lines", "datalines4", "cards4", "lines4", "parmcards", "parmcards4"] {
+        add("{};\n1 2\n;", w);
+        add("x; {};\n1 2\n;;;;", w);
+    }
+    for sfx in ["b", "d", "dt", "n", "t", "x"] {
+        add("'41'{}", sfx);
+        add("\"41\"{}", sfx);
+        add("\"&v.41\"{}", sfx);
+    }
+    for h in ["0afx", "1e5", "1.5e-3"] {
+        add("x={};", h);
+        add("%eval({})", h);
+    }
+    for (kw, t) in macro_keywords() {
+        let w = format!("%{}", kw.to_ascii_lowercase());
+        add("{}", &w);
+        if is_macro_stat_kw(t) {
+            add("{} a=1;", &w);
+        } else {
+            add("%let x={}(a,1);", &w);
+        }
+    }
+    for m in ["eq", "ne", "lt", "le", "gt", "ge", "and", "or", "not", "in"] {
+        add("%if a {} b %then %put c;", m);
+        add("%eval(1 {} 2)", m);
+        add("%sysevalf(1.5 {} 2)", m);
+    }
+    for w in ["readonly"] {
+        add("%local / {} a=1;", w);
+    }
+    v
+}
+
 /// Open-code keywords, upper case (DESIGN 4.5 rule 7)
 pub fn keywords() -> Vec<(String, T)> {
     let mut v = Vec::new();
@@ -349,6 +439,31 @@ pub fn alias_spaces(n: usize) -> Vec<Space> {
     v
 }
 
+/// Comment shapes whose opener and closer overlap or whose body looks like a delimiter
+/// (`/*/:*/` is one comment although `/*/` reads like a complete one; `/**/` is empty), with
+/// the tokens a hand-written look-ahead would search for after skipping a comment.
+pub const COMMENT_ATOMS: &[&str] = &[
+    "/*/:*/", "/**/", "/*/*/", "/***/", "/*;*/", "/*'*/", "/*\"*/", "/*\n*/", "/*(*/", "/*)*/", "/*=*/", "/*,*/", "*/", "/*", "a ", "%m", "%l", ":",
+    ";", "=", "(", ")", ",", "&v", " ", "%let ", "1",
+];
+
+pub fn comment_spaces(n: usize) -> Vec<Space> {
+    let mut v = Vec::new();
+    let mut ctx: Vec<(&str, &str)> = vec![("", ""), ("x ", ";")];
+    for (p, closers) in SEEDS {
+        ctx.push((p, closers[closers.len() - 1]));
+    }
+    for (p, s) in crate::templates::SCANNER_TEMPLATES {
+        if !ctx.contains(&(*p, *s)) {
+            ctx.push((p, s));
+        }
+    }
+    for (i, (p, s)) in ctx.iter().enumerate() {
+        v.push(Space::seeded(&format!("cmt{i:02}[{}..{}]", p.escape_debug(), s.escape_debug()), p, s, COMMENT_ATOMS, n));
+    }
+    v
+}
+
 /// A run of 66 hidden-channel tokens (comment, blank, comment, ...) placed directly after the
 /// prefix resp. directly before the suffix of every nesting prefix and scanner template: every
 /// look-behind ("last token on the default channel") and look-ahead across insignificant
@@ -444,6 +559,7 @@ pub fn sigma_spaces(which: &[&str], tier: Tier) -> Vec<Space> {
                 v.extend(expr_spaces(if q { 3 } else { 4 }));
                 v.extend(alias_spaces(if q { 3 } else { 4 }));
                 v.extend(hidden_run_spaces(if q { 2 } else { 3 }));
+                v.extend(comment_spaces(if q { 3 } else { 4 }));
                 // every spelling of the in-stream data keywords (coverage measurement showed that
                 // only DATALINES and CARDS4 were ever exercised)
                 v.push(sp("dlfamily", DL_FAMILY, if q { 4 } else { 5 }));
